@@ -4,6 +4,7 @@ import (
 	"context"
 	"errors"
 	"fmt"
+	"os"
 	"regexp"
 	"sort"
 	"strings"
@@ -14,7 +15,9 @@ import (
 	"github.com/twmb/franz-go/pkg/kadm"
 	"github.com/twmb/franz-go/pkg/kfake"
 	"github.com/twmb/franz-go/pkg/kgo"
+	"github.com/twmb/franz-go/pkg/kmsg"
 
+	"verif/lib/explore"
 	"verif/lib/netctl"
 	"verif/lib/nrun"
 	"verif/lib/nscen"
@@ -42,6 +45,10 @@ type model struct {
 	topics  map[string]bool // whole topics selected by name
 	parts   map[tp]bool     // partitions selected explicitly
 	removed map[tp]bool     // partitions removed from a whole-topic selection
+	// optional: partitions whose status the doc comments leave open (may be
+	// consumed, need not be): a partition removed from a by-name topic when
+	// AddConsumeTopics names that topic again.
+	optional map[tp]bool
 }
 
 func (m *model) selected(t string, p int32, internal bool) bool {
@@ -62,10 +69,15 @@ func (m *model) selected(t string, p int32, internal bool) bool {
 		}
 		return ok
 	}
-	if m.parts[tp{t, p}] {
+	if m.parts[tp{t, p}] || m.optional[tp{t, p}] {
 		return true
 	}
 	return m.topics[t] && !m.removed[tp{t, p}]
+}
+
+// must: selected, and the documentation leaves no doubt about it.
+func (m *model) must(t string, p int32, internal bool) bool {
+	return m.selected(t, p, internal) && !m.optional[tp{t, p}]
 }
 
 type rk struct {
@@ -85,18 +97,30 @@ type state struct {
 	internal map[string]bool  // topics created with the internal flag
 	nparts   map[string]int32 // partitions created so far (completed ENV steps), per topic
 	deleted  map[string]bool
-	ever     map[tp]bool    // partitions that were selected at some point
-	purges   map[string]int // PurgeTopicsFromConsuming calls per topic
-	got      map[rk]int     // deliveries per record
+	ever     map[tp]bool     // partitions that were selected at some point
+	purges   map[string]int  // PurgeTopicsFromConsuming calls per topic
+	got      map[rk]int      // deliveries per record
+	since    map[rk]int      // deliveries since the partition was last (re)selected by a call with a start offset
+	removes  map[tp]int      // RemoveConsumePartitions calls per partition
+	pinEver  map[string]bool // topics that had an explicitly pinned partition since their last purge
 	polls    int
 	errs     map[string]int
+
+	// What the client has asked the broker for (decoded Fetch request frames):
+	// used only to tell the known by-name/partial-remove defect from anything else.
+	ids             map[[16]byte]string
+	fetched         map[tp]bool
+	fetchedAtRemove map[string]map[tp]bool // by-name topic -> partitions fetched when its first partial remove returned
 }
 
 func newState(x *netctl.Exec, nb int) *state {
 	st := &state{x: x, nb: nb, internal: map[string]bool{}, nparts: map[string]int32{}, deleted: map[string]bool{},
-		ever: map[tp]bool{}, purges: map[string]int{}, got: map[rk]int{}, errs: map[string]int{}}
-	st.m = model{topics: map[string]bool{}, parts: map[tp]bool{}, removed: map[tp]bool{}}
+		ever: map[tp]bool{}, purges: map[string]int{}, got: map[rk]int{}, errs: map[string]int{},
+		since: map[rk]int{}, removes: map[tp]int{}, pinEver: map[string]bool{},
+		ids: map[[16]byte]string{}, fetched: map[tp]bool{}, fetchedAtRemove: map[string]map[tp]bool{}}
+	st.m = model{topics: map[string]bool{}, parts: map[tp]bool{}, removed: map[tp]bool{}, optional: map[tp]bool{}}
 	x.Data = st
+	x.FrameHook = st.frameHook
 	return st
 }
 
@@ -153,8 +177,12 @@ func (st *state) createTopic(topic string, parts int32, internal bool) {
 		if _, err := adm.CreateTopic(ctx, parts, 1, cfgs, topic); err != nil {
 			return err
 		}
+		ti := st.c.TopicInfo(topic)
 		st.mu.Lock()
 		st.internal[topic] = internal
+		if ti != nil {
+			st.ids[ti.TopicID] = topic
+		}
 		st.mu.Unlock()
 		if err := st.fill(ctx, h, topic, 0, parts); err != nil {
 			return err
@@ -217,15 +245,49 @@ func (st *state) markEver() {
 	}
 }
 
+// resel: the partition starts over at its start offset; both records are owed again.
+func (st *state) resel(t string, p int32) {
+	for off := int64(0); off < 2; off++ {
+		delete(st.since, rk{t, p, off})
+	}
+}
+
 func (st *state) addConsumeTopics(topics ...string) {
 	st.cl.AddConsumeTopics(topics...)
 	st.mu.Lock()
-	if !st.m.regex { // "This function is a no-op if the client is configured to consume via regex."
-		for _, t := range topics {
-			st.m.topics[t] = true
+	defer st.mu.Unlock()
+	if st.m.regex { // "This function is a no-op if the client is configured to consume via regex."
+		return
+	}
+	for _, t := range topics {
+		pinned := false
+		for k := range st.m.parts {
+			if k.t == t {
+				pinned = true
+			}
+		}
+		if pinned {
+			// "if you are directly consuming and specified ConsumePartitions,
+			// this function will not add the rest of the partitions for a topic
+			// unless the topic has been previously purged"
+			continue
+		}
+		was := st.m.topics[t]
+		st.m.topics[t] = true
+		for k := range st.m.removed {
+			if k.t == t { // removed from the by-name topic, topic named again: left open by the docs
+				delete(st.m.removed, k)
+				st.m.optional[k] = true
+			}
+		}
+		if !was {
+			for p := int32(0); p < 8; p++ {
+				if !st.m.optional[tp{t, p}] {
+					st.resel(t, p)
+				}
+			}
 		}
 	}
-	st.mu.Unlock()
 }
 
 func (st *state) addConsumePartitions(ps map[string][]int32) {
@@ -238,15 +300,22 @@ func (st *state) addConsumePartitions(ps map[string][]int32) {
 	}
 	st.cl.AddConsumePartitions(arg)
 	st.mu.Lock()
-	if !st.m.regex { // "works only for direct, non-regex consumers"
-		for t, l := range ps {
-			for _, p := range l {
-				st.m.parts[tp{t, p}] = true
-				delete(st.m.removed, tp{t, p})
+	defer st.mu.Unlock()
+	if st.m.regex { // "works only for direct, non-regex consumers"
+		return
+	}
+	for t, l := range ps {
+		st.pinEver[t] = true
+		for _, p := range l {
+			k := tp{t, p}
+			was := st.m.selected(t, p, st.internal[t])
+			st.m.parts[k] = true
+			delete(st.m.removed, k)
+			if !was { // "adds new partitions to be consumed at the given offsets" (AtStart)
+				st.resel(t, p)
 			}
 		}
 	}
-	st.mu.Unlock()
 }
 
 func (st *state) removeConsumePartitions(ps map[string][]int32) {
@@ -259,17 +328,56 @@ func (st *state) removeConsumePartitions(ps map[string][]int32) {
 	st.mu.Unlock()
 	st.cl.RemoveConsumePartitions(arg)
 	st.mu.Lock()
-	if !st.m.regex {
-		for t, l := range ps {
-			for _, p := range l {
-				delete(st.m.parts, tp{t, p})
-				if st.m.topics[t] {
-					st.m.removed[tp{t, p}] = true
+	defer st.mu.Unlock()
+	if st.m.regex {
+		return
+	}
+	for t, l := range ps {
+		if st.m.topics[t] && st.fetchedAtRemove[t] == nil {
+			snap := map[tp]bool{}
+			for k := range st.fetched {
+				if k.t == t {
+					snap[k] = true
 				}
+			}
+			st.fetchedAtRemove[t] = snap
+		}
+		for _, p := range l {
+			k := tp{t, p}
+			st.removes[k]++
+			delete(st.m.parts, k)
+			delete(st.m.optional, k)
+			if st.m.topics[t] {
+				st.m.removed[k] = true
 			}
 		}
 	}
-	st.mu.Unlock()
+}
+
+// frameHook records which partitions the client asks the broker for.
+func (st *state) frameHook(c *netctl.Conn, dir string, key, ver int16, frame []byte) {
+	if dir != "req" || key != 1 || c.Client != "c" {
+		return
+	}
+	req, _, ok := netctl.DecodeRequest(frame)
+	if !ok {
+		return
+	}
+	fr, ok := req.(*kmsg.FetchRequest)
+	if !ok {
+		return
+	}
+	st.mu.Lock()
+	defer st.mu.Unlock()
+	for _, rt := range fr.Topics {
+		name := rt.Topic
+		if name == "" {
+			name = st.ids[rt.TopicID]
+		}
+		for _, rp := range rt.Partitions {
+			st.fetched[tp{name, rp.Partition}] = true
+		}
+	}
 }
 
 func (st *state) purge(topics ...string) {
@@ -293,6 +401,14 @@ func (st *state) purge(topics ...string) {
 				delete(st.m.removed, k)
 			}
 		}
+		for k := range st.m.optional {
+			if k.t == t {
+				delete(st.m.optional, k)
+			}
+		}
+		// "removes all concept of the topic": what follows is a fresh start
+		delete(st.pinEver, t)
+		delete(st.fetchedAtRemove, t)
 	}
 	st.mu.Unlock()
 }
@@ -330,6 +446,7 @@ func (st *state) poll(d time.Duration, max int) int {
 			}
 		}
 		st.got[rk{r.Topic, r.Partition, r.Offset}]++
+		st.since[rk{r.Topic, r.Partition, r.Offset}]++
 	})
 	return n
 }
@@ -344,11 +461,11 @@ func (st *state) missing() []string {
 			continue
 		}
 		for p := int32(0); p < n; p++ {
-			if !st.m.selected(t, p, st.internal[t]) {
+			if !st.m.must(t, p, st.internal[t]) {
 				continue
 			}
 			for off := int64(0); off < 2; off++ {
-				if st.got[rk{t, p, off}] == 0 {
+				if st.since[rk{t, p, off}] == 0 {
 					out = append(out, fmt.Sprintf("%s/%d@%d", t, p, off))
 				}
 			}
@@ -356,6 +473,41 @@ func (st *state) missing() []string {
 	}
 	sort.Strings(out)
 	return out
+}
+
+// knownPartialRemove reports whether EVERY missing record fits the known
+// defect C39:names-remove:missing exactly: a topic selected by name (no
+// partition pinned since it was named / last purged), of which some OTHER partition was removed with
+// RemoveConsumePartitions, and a partition the client had not yet asked the
+// broker for when that call returned, of which nothing was ever delivered.
+func (st *state) knownPartialRemove(miss []string) bool {
+	st.mu.Lock()
+	defer st.mu.Unlock()
+	if st.m.regex {
+		return false
+	}
+	for _, m := range miss {
+		var t string
+		var p int32
+		var off int64
+		i := strings.LastIndexByte(m, '/')
+		if i < 0 {
+			return false
+		}
+		t = m[:i]
+		if _, err := fmt.Sscanf(m[i+1:], "%d@%d", &p, &off); err != nil {
+			return false
+		}
+		k := tp{t, p}
+		snap, removedSome := st.fetchedAtRemove[t]
+		if !st.m.topics[t] || st.pinEver[t] || !removedSome || snap[k] || st.m.removed[k] {
+			return false
+		}
+		if st.got[rk{t, p, 0}] > 0 || st.got[rk{t, p, 1}] > 0 {
+			return false
+		}
+	}
+	return true
 }
 
 func final(x *netctl.Exec) {
@@ -387,14 +539,21 @@ func final(x *netctl.Exec) {
 		}
 	}
 	if miss := st.missing(); len(miss) > 0 {
-		x.Violate("missing", "records of selected partitions never returned within 2 virtual minutes of a fault-free suffix: %v", miss)
+		key := "missing"
+		if st.knownPartialRemove(miss) {
+			key = "missing:named-partial-remove"
+		}
+		x.Violate(key, "records of selected partitions never returned within 2 virtual minutes of a fault-free suffix: %v", miss)
 	}
 	st.mu.Lock()
 	defer st.mu.Unlock()
 	for k, n := range st.got {
-		max := 1
-		if st.m.regex {
-			max += st.purges[k.t] // a purged topic that still matches "will be re-discovered"
+		// A purged topic that still matches the regex "will be re-discovered";
+		// a topic or partition selected again after a purge / removal starts
+		// over at its start offset.
+		max := 1 + st.purges[k.t]
+		if !st.m.regex {
+			max += st.removes[tp{k.t, k.p}]
 		}
 		if n > max {
 			x.Violate("duplicate", "record %s/%d@%d returned %d times (at most %d allowed)", k.t, k.p, k.off, n, max)
@@ -663,7 +822,7 @@ var scPartsPartial = &netctl.Scenario{
 		st.cl = nscen.NewClient(x, "c", st.c, append(baseOpts(), kgo.ConsumePartitions(map[string]map[int32]kgo.Offset{"p": {0: start, 1: start}}))...)
 		x.Thread("APP", func(t *netctl.Thread) {
 			nap(310 * time.Millisecond) // p/0, p/1 normally buffered by now, unpolled
-			t.Step("remove-p0") // p/1 stays pinned
+			t.Step("remove-p0")         // p/1 stays pinned
 			st.removeConsumePartitions(map[string][]int32{"p": {0}})
 			t.Step("add-q0-q1")
 			st.addConsumePartitions(map[string][]int32{"q": {0, 1}})
@@ -694,10 +853,18 @@ var plans = []nrun.Plan{
 }
 
 func TestC39(t *testing.T) {
+	if os.Getenv(genEnv) != "" && explore.IsWorker() {
+		genWorker(t) // worker of the generated-script sweep (gen_test.go)
+		return
+	}
+	if p := os.Getenv("VERIF_REPLAY"); p != "" && genReplay(t, p) {
+		return
+	}
 	nrun.Main(t, &nrun.Check{
 		ID: "C39", TestName: "TestC39", Plans: plans,
-		QuickTime: 75 * time.Second, ThorTime: 15 * time.Minute,
-		Rule: "engine N: every order of application calls (AddConsumeTopics, AddConsumePartitions, RemoveConsumePartitions, PurgeTopicsFromConsuming, polls), environment actions (create matching / non-matching / excluded / internal topics, CreatePartitions on a consumed topic, DeleteTopics), request/response frame deliveries of the consumer, timer ticks and Metadata connection kills within k deviations of the default timeline, for five direct-consumer configurations (topics by name, by name with RemoveConsumePartitions, regex with exclusion, explicit partitions, explicit partitions with a topic losing some but not all of its pinned partitions); every created partition holds 2 records tagged with its identity; distinct = distinct terminal outcomes (deliveries per partition, error classes) per scenario",
+		QuickTime: 50 * time.Second, ThorTime: 11 * time.Minute,
+		KeyOf: genKey, Extra: genSweep,
+		Rule:   "engine N: every order of application calls (AddConsumeTopics, AddConsumePartitions, RemoveConsumePartitions, PurgeTopicsFromConsuming, polls), environment actions (create matching / non-matching / excluded / internal topics, CreatePartitions on a consumed topic, DeleteTopics), request/response frame deliveries of the consumer, timer ticks and Metadata connection kills within k deviations of the default timeline, for five direct-consumer configurations (topics by name, by name with RemoveConsumePartitions, regex with exclusion, explicit partitions, explicit partitions with a topic losing some but not all of its pinned partitions); every created partition holds 2 records tagged with its identity; distinct = distinct terminal outcomes (deliveries per partition, error classes) per scenario; plus the generated family: every application script of L slots (quick 3, thorough 4) over a per-configuration alphabet of selection calls and the empty slot (by name: 8 symbols, explicit partitions: 9, regex: 7), each slot followed by a poll, against a fixed environment timeline (create topic, CreatePartitions, delete topic), run on the default schedule",
 		Assume: []string{"kfake is the broker; a topic is internal when kfake's Metadata says IsInternal (topic config kfake.is_internal)", "synctests build of xsync; virtual time", "selection model maintained by the harness from calls that have returned, per the doc comment of each call; under regex a purged topic that still exists is re-discovered (documented), so its records may be delivered once more per purge", "liveness bound: 2 virtual minutes of fault-free pass-through with MetadataMaxAge 5 s"},
 	})
 }
